@@ -1,0 +1,64 @@
+//go:build verif
+
+package proxy
+
+import (
+	"net/http"
+	"time"
+
+	"reservoir/cache"
+	"reservoir/config"
+	"reservoir/proxy/headers"
+	"reservoir/proxy/responder"
+	"reservoir/utils/typeutils"
+)
+
+// Verification hooks (build tag "verif" only) for the storability decision of the
+// fetcher and the Age / X-Cache / Cache-Status computation.
+
+// VerifShouldResponseBeCached runs fetcher.shouldResponseBeCached for a response with the
+// given status and header set to a request with the given method, under cfg's cache policy.
+func VerifShouldResponseBeCached(cfg *config.Config, method string, status int, h http.Header) (should bool, panicked bool) {
+	defer func() {
+		if r := recover(); r != nil {
+			panicked = true
+		}
+	}()
+	f := fetcher{cfg: cfg}
+	resp := &http.Response{StatusCode: status, Header: h, Request: &http.Request{Method: method}}
+	return f.shouldResponseBeCached(resp, headers.ParseHeaderDirective(h)), false
+}
+
+// VerifCurrentAge runs getCurrentAge on a stored header set and store time.
+func VerifCurrentAge(stored http.Header, storedAt time.Time) int {
+	return getCurrentAge(stored, storedAt)
+}
+
+// verifHeaderWriter is a minimal http.ResponseWriter that only keeps the header map.
+type verifHeaderWriter struct{ h http.Header }
+
+func (w *verifHeaderWriter) Header() http.Header         { return w.h }
+func (w *verifHeaderWriter) Write(b []byte) (int, error) { return len(b), nil }
+func (w *verifHeaderWriter) WriteHeader(int)             {}
+
+// VerifCacheLabels builds the fetch result the fetcher produces for the given hit status
+// (0 miss, 1 revalidated, 2 hit), upstream status and entry (cached = result carries an
+// entry with the given expiry / store time / stored header) and returns the Cache-Status,
+// X-Cache and Age fields fetchResultToCacheStatus + addCacheHeaders compute for it.
+func VerifCacheLabels(hit int, upstreamStatus int, cached bool, expires, written time.Time, stored http.Header) (cacheStatus, xCache, age string) {
+	info := fetchInfo{UpstreamStatus: upstreamStatus, Status: hitStatus(hit)}
+	var fr fetchResult
+	entry := typeutils.None[*cache.Entry[cachedRequestInfo]]()
+	if cached {
+		e := &cache.Entry[cachedRequestInfo]{Metadata: &cache.EntryMetadata[cachedRequestInfo]{
+			Expires: expires, TimeWritten: written, Object: cachedRequestInfo{Header: stored},
+		}}
+		fr = fetchResult{Type: fetchTypeCached, Cached: cachedFetchResult{fetchInfo: info, Entry: e}}
+		entry = typeutils.Some(e)
+	} else {
+		fr = fetchResult{Type: fetchTypeDirect, Direct: directFetchResult{fetchInfo: info}}
+	}
+	sink := &verifHeaderWriter{h: http.Header{}}
+	addCacheHeaders(responder.NewHTTPResponder(sink), &http.Request{Proto: "HTTP/1.1"}, entry, fetchResultToCacheStatus(fr))
+	return sink.h.Get("Cache-Status"), sink.h.Get("X-Cache"), sink.h.Get("Age")
+}
